@@ -37,6 +37,18 @@ CHECKS = {
         technique="TLA+ model (TLC exhaustive) + TLC-simulated histories replayed on the code + TLC trace monitor sharing the model's operators",
         design_ref="DESIGN.md section 5 C01",
     ),
+    "C07": dict(
+        level="model_checking",
+        text="Bloom.tla models the column writer's filter bookkeeping (incremental insert, dictionary fallback, the three "
+             "flushFilterPages strategies, pre-sizing, reset) and TLC checks written <= filter for every short history. "
+             "TLC-simulated histories are executed for nine physical types across entry paths (WriteRows, ColumnWriters, "
+             "WriteRowGroup from buffer / verbatim copy / re-encode) and filter options; BloomMon.tla requires every value "
+             "stored in a chunk to check true against that chunk's filter.",
+        note="Hashing is abstract in the model; real hashing is exercised per type by the harness with a few values per token. "
+             "Encrypted bloom filters are C18's.",
+        technique="TLA+ model (TLC exhaustive) + TLC-simulated histories replayed on the code + TLC trace monitor",
+        design_ref="DESIGN.md section 5 C07",
+    ),
     "C08": dict(
         level="model_checking",
         text="PageReader.tla, an implementation-shaped TLA+ model of FilePages.SeekToRow/ReadPage (one action per "
